@@ -119,4 +119,92 @@ theorem body_panic (c : Ctx) (e : Enc) (p : Panic) (h : e.body c = .panic p) : S
   case respMsgTypes cc ts => split at h <;> cases h
   case respVendor cc sel vid => split at h; assumption; cases h
 
+/-! ### normal form of the reported bytes, and what each API call hands to `genPacket` -/
+
+/-- normal form of the bytes a successful encoder call reports -/
+theorem encode_ok_take {c : Ctx} {dst : B} {e : Enc} {buf buf' : Bytes} {n : Nat}
+    (h : encode c dst e buf = .ok (buf', n)) :
+    ∃ t hd d, e.body c = .ok (t, hd, d) ∧ e.isStub = false ∧ 1 + optLen hd + d.length ≤ 250 ∧
+      n = 10 + optLen hd + d.length ∧
+      buf'.take n = packetPre c.address dst t hd d ++ [crc8 (packetPre c.address dst t hd d)] := by
+  obtain ⟨t, hd, d, hbd, hs, hf, hl, hp, hn⟩ := (encode_ok_iff c dst e buf buf' n).mp h
+  subst hp hn
+  refine ⟨t, hd, d, hbd, hs, hf, rfl, ?_⟩
+  rw [List.take_left' (packetBytes_length ..), packetBytes_eq]
+
+theorem packetPre_cons (a d : B) (t : MsgType) (h : Option Bytes) (data : Bytes) :
+    packetPre a d t h data =
+      (d &&& 0x7F#8) <<< 1 :: 0x0F#8 :: BitVec.ofNat 8 (6 + optLen h + data.length) ::
+        (((a &&& 0x7F#8) <<< 1) ||| 1#8) :: 0x01#8 :: d :: a :: 0xC8#8 :: (t.toByte &&& 0x7F#8) ::
+          (optBytes h ++ data) := rfl
+
+theorem sub_pre (pre : Bytes) (x : B) (a n : Nat) (hn : n = pre.length + 1) :
+    Spec.sub (pre ++ [x]) a (n - 1) = pre.drop a := by
+  subst hn
+  simp [Spec.sub]
+
+/-- bytes 9 .. n-2 of an encoded packet: additional header and data -/
+theorem encode_ok_sub9 {c : Ctx} {dst : B} {e : Enc} {buf buf' : Bytes} {n : Nat}
+    (h : encode c dst e buf = .ok (buf', n)) :
+    ∃ t hd d, e.body c = .ok (t, hd, d) ∧ Spec.sub (buf'.take n) 9 (n - 1) = optBytes hd ++ d := by
+  obtain ⟨t, hd, d, hb, -, -, hn, hp⟩ := encode_ok_take h
+  refine ⟨t, hd, d, hb, ?_⟩
+  rw [hp, sub_pre _ _ _ _ (by rw [packetPre_length, hn]; omega), packetPre_cons]
+  rfl
+
+/-- invert `hb : e.body c = .ok (t, hd, d)` after `cases e`: substitutes `t`, `hd`, `d` -/
+macro "enc_body_inv " hb:ident : tactic => `(tactic| (
+  simp only [Enc.body] at $hb:ident
+  repeat' (split at $hb:ident)
+  all_goals (first | (cases $hb:ident; done) | skip)
+  all_goals (simp only [Out.ok.injEq, Prod.mk.injEq] at $hb:ident; obtain ⟨h1, h2, h3⟩ := $hb:ident; subst h1 h2 h3)))
+
+theorem typeByte_body {c : Ctx} {e : Enc} {t : MsgType} {hd : Option Bytes} {d : Bytes}
+    (hb : e.body c = .ok (t, hd, d)) :
+    (match Spec.typeByte e with | some tb => (t.toByte &&& 0x7F#8) == tb | none => true) = true := by
+  cases e <;> enc_body_inv hb
+  all_goals (first | rfl | skip)
+  case genSpdm t _ _ => cases t <;> rfl
+  all_goals simp [Spec.typeByte, MsgType.toByte, *]
+
+theorem reqBody_body {c : Ctx} {e : Enc} {t : MsgType} {hd : Option Bytes} {d body : Bytes}
+    (hq : ∀ a t, e ≠ .reqQueryHop a t) (ha : Spec.argsOk e = true)
+    (hr : Spec.reqBody e = some body) (hb : e.body c = .ok (t, hd, d)) : optBytes hd ++ d = body := by
+  cases e <;> enc_body_inv hb
+  all_goals (unfold Spec.reqBody at hr; simp only [Option.some.injEq] at hr)
+  all_goals (first | (cases hr; done) | skip)
+  all_goals subst hr
+  all_goals simp [optBytes, ctrlHeader_eq, Cmd.toByte]
+  case reqRouting es _ =>
+    simp [Spec.argsOk] at ha
+    exact List.take_of_length_le (by omega)
+  case reqQueryHop a t => exact hq a t rfl
+
+theorem respFields_body {c : Ctx} {e : Enc} {t : MsgType} {hd : Option Bytes} {d fields : Bytes} {cmd cc : B}
+    (hf : Spec.respFields c.respEid e = some (cmd, cc, fields)) (hb : e.body c = .ok (t, hd, d)) :
+    optBytes hd ++ d = 0x00#8 :: cmd :: cc :: fields := by
+  cases e <;> enc_body_inv hb
+  all_goals (unfold Spec.respFields at hf; simp only [Option.some.injEq, Prod.mk.injEq] at hf)
+  all_goals (first | (cases hf; done) | skip)
+  all_goals (obtain ⟨h1, h2, h3⟩ := hf; subst h1 h2 h3)
+  all_goals simp [optBytes, ctrlHeader_eq, Cmd.toByte]
+  all_goals simp_all
+  exact BitVec.or_comm _ _
+
+theorem vendorFrame_body {c : Ctx} {e : Enc} {t : MsgType} {hd : Option Bytes} {d fr : Bytes}
+    (hv : Spec.vendorFrame e = some fr) (hb : e.body c = .ok (t, hd, d)) :
+    (t.toByte &&& 0x7F#8) :: (optBytes hd ++ d) = fr := by
+  cases e <;> enc_body_inv hb
+  all_goals (unfold Spec.vendorFrame at hv; try simp only [] at hv)
+  all_goals (first | (cases hv; done) | skip)
+  case vendorDefined.isTrue v msg h0 =>
+    rw [if_pos h0] at hv; cases hv
+    rw [pciHeader_eq]; rfl
+  case vendorDefined.isFalse.isTrue v msg h0 h1 =>
+    rw [if_neg h0, if_pos h1] at hv; cases hv
+    rw [ianaHeader_eq]; rfl
+  case genPci h d => cases hv; rfl
+  case genIana h d => cases hv; rfl
+  case genSpdm t h d => cases t <;> simp only [] at hv <;> cases hv <;> rfl
+
 end Mctp
